@@ -302,6 +302,14 @@ var corpus = []string{
 	`select ?s from ?w where {?s "score"@[] ?o} having not (?o > "abc"^^type:float64) or ?o = "[300]"^^type:blob;`,
 	`select ?s from ?w where {?s "seen"@[?t] ?o} having ?t < 2016-13-45T00:00:00Z;`,
 	`select ?s from ?w where {?s "score"@[] ?o} limit "many"^^type:int64;`,
+	// nested / repeated boolean operators, texts with escapes and comment-like characters
+	`select ?s, ?o from ?w where {?s "next"@[] ?o} having not not ?s = ?o;`,
+	`select ?s, ?o from ?w where {?s "next"@[] ?o} having not (not (not ?s = ?o));`,
+	`select ?s from ?w where {?s "score"@[] ?o} having (not not ?o < "3"^^type:int64) or ((?s = ?s) and not (?o = ?o));`,
+	`insert data into ?a {/u<alice> "tag"@[] "#bql"^^type:text . /room<12#b> "see#also"@[] "C# \\ \"x\""^^type:text};`,
+	`select ?s from ?a where {?s "knows\\`,
+	`select ?s from ?a where {?s "p"@[] "abc\\`,
+	`"\\`,
 }
 
 // texts with a syntax error followed, a few tokens later, by a lexical error: the lexer goroutine is still running (or
@@ -343,19 +351,32 @@ func gen(seed int64, n, exhaust int) []tcase {
 	for _, s := range sents {
 		cases = append(cases, tcase{Kind: "witness", Text: s})
 	}
+	// random derivations of the grammar (deeper and longer than the minimal witnesses), with variant lexemes
+	for i := 0; i < n/2+40; i++ {
+		toks := g.RandomSentence(rng.Intn, 3+rng.Intn(6))
+		cases = append(cases, tcase{Kind: "derivation", Text: gram.RenderVariant(toks, rng.Intn(7))})
+	}
+	// every byte prefix of every corpus statement (a truncated statement must be an error, never a crash)
+	for _, c := range corpus {
+		step := 1
+		if n <= 5000 {
+			step = 2 // quick tier: every second byte; the last 12 bytes always
+		}
+		for k := 1; k < len(c); k++ {
+			if k%step == 0 || len(c)-k <= 12 {
+				cases = append(cases, tcase{Kind: "prefix", Text: c[:k]})
+			}
+		}
+	}
 	pool := append(append([]string{}, corpus...), sents...)
 	ntok := len(gram.TokenNames())
 	for i := 0; i < n; i++ {
 		base := pool[rng.Intn(len(pool))]
 		switch rng.Intn(5) {
 		case 0: // token-level mutation
-			var toks []string
-			lx, _ := lexSafe(base)
-			for _, t := range lx {
-				if t.Type != lexer.ItemEOF && t.Type != lexer.ItemError {
-					toks = append(toks, t.Text)
-				}
-			}
+			// split on blanks (never run the lexer in the generating process: a lexer that panics in its goroutine
+			// would take the whole harness down instead of one child)
+			toks := strings.Fields(base)
 			if len(toks) == 0 {
 				continue
 			}
@@ -448,7 +469,10 @@ func main() {
 	cases := gen(*seed, *n, *exhaust)
 	var runs []runSpec
 	for _, c := range cases {
-		runs = append(runs, runSpec{c, "empty"}, runSpec{c, "populated"})
+		runs = append(runs, runSpec{c, "empty"})
+		if c.Kind != "prefix" && c.Kind != "race-repeat" {
+			runs = append(runs, runSpec{c, "populated"})
+		}
 	}
 	if *extra != "" {
 		f, err := os.Open(*extra)
@@ -532,7 +556,7 @@ func main() {
 					msg := errb.String()
 					site := firstFrames(msg)
 					first := strings.SplitN(msg, "\n", 2)[0]
-					b, _ := json.Marshal(result{started, c.Kind, sk, c.Text, "killed", first + " @ " + site, 0, lexKindsSafe(c.Text)})
+					b, _ := json.Marshal(result{started, c.Kind, sk, c.Text, "killed", first + " @ " + site, 0, nil})
 					emit(string(b))
 					next = started + W
 				} else if done < 0 {
